@@ -5,3 +5,9 @@ type Money struct {
 	Amount   int
 	Currency string
 }
+
+// a function-local variable with the name of a model type: legal Go, and of no concern to the binder
+func describe() string {
+	Money := "money"
+	return Money
+}
